@@ -38,7 +38,7 @@ type Base struct {
 	Params *chaincfg.Params
 	Blocks []*lab.Blk // b1..b4
 	Tip    *lab.Blk
-	// Coins by name: K0..K5 are OP_TRUE coins, W0..W2 P2WPKH, P0..P1 P2PKH.
+	// Coins by name: K0..K5 are OP_TRUE coins, W0..W4 P2WPKH, P0..P1 P2PKH.
 	Coins map[string]wire.OutPoint
 
 	key      *btcec.PrivateKey
@@ -89,6 +89,7 @@ func NewBase() *Base {
 		{"K4", KTrue, 3 * coin}, {"K5", KTrue, 3 * coin},
 		{"W0", KWPKH, 2 * coin}, {"W1", KWPKH, 2 * coin}, {"W2", KWPKH, 2 * coin},
 		{"P0", KPKH, 2 * coin}, {"P1", KPKH, 2 * coin},
+		{"W3", KWPKH, coin}, {"W4", KWPKH, coin},
 	}
 	var sum int64
 	for _, d := range defs {
@@ -517,6 +518,37 @@ func StdWorld(b *Base) *World {
 	w.FirstOutKind1 = 0
 	w.Add("ST", []I{{"NT:0", Final}}, 1, KWPKH, 3000)
 	w.MineSets = [][]string{{"SA"}, {"NT"}}
+	w.ReorgSets = [][]string{{}}
+	return w.Seal()
+}
+
+// WitWorld is a standard-policy universe in which serialized size and virtual
+// size differ a lot: SW spends two P2WPKH coins into one output (about 340
+// bytes, 178 vbytes).  SW1 conflicts with it on one coin, is larger in vbytes
+// (four outputs) and pays SW's fee plus its own relay fee: the absolute-fee rule
+// is met, but its fee rate lies between SW's fee per *byte* and SW's fee per
+// *vbyte*, so it must be refused.  SW2 has SW1's shape and a fee rate strictly
+// above SW's: it must be accepted.  SC spends SW's output (descendant with
+// witness data, inherits signalling).
+func WitWorld(b *Base) *World {
+	w := NewWorld(b, "wit")
+	sw := w.Add("SW", []I{{"W3", RBFMax}, {"W4", RBFMax}}, 1, KWPKH, 20000)
+	sw1 := w.Add("SW1", []I{{"W3", Final}}, 4, KWPKH, 20000+320)
+	sw2 := w.Add("SW2", []I{{"W3", Final}}, 4, KWPKH, 26000)
+	w.Add("SC", []I{{"SW:0", Final}}, 1, KWPKH, 1500)
+	r, r1, r2 := sw.Ref, sw1.Ref, sw2.Ref
+	if r.Size*10 < r.VSize()*17 {
+		panic(fmt.Sprintf("SW: size %d vsize %d: not witness-heavy", r.Size, r.VSize()))
+	}
+	if r1.Fee < r.Fee+r1.VSize() || // absolute rule met (relay fee 1000/kvB)
+		r1.Fee*r.VSize() >= r.Fee*r1.VSize() || // rate by vsize not higher
+		r1.Fee*r.Size <= r.Fee*r1.VSize() { // but higher than SW's fee per serialized byte
+		panic(fmt.Sprintf("SW1 is not between the two rates: SW %d/%d/%d SW1 %d/%d", r.Fee, r.VSize(), r.Size, r1.Fee, r1.VSize()))
+	}
+	if r2.Fee*r.VSize() <= r.Fee*r2.VSize() {
+		panic("SW2 does not beat SW's fee rate")
+	}
+	w.MineSets = [][]string{{"SW"}}
 	w.ReorgSets = [][]string{{}}
 	return w.Seal()
 }
